@@ -305,6 +305,11 @@ class Ctx:
     def selftest(self, ok, what):
         """The binding must notice a corrupted expectation / log; otherwise the check is blind."""
         if not ok:
+            if self.violations:
+                # the code under test already contradicts the specification; the self-test compares
+                # corrupted expectations with that same (deviating) code and is not meaningful then
+                log("[selftest] skipped (violations already found): " + what)
+                return
             raise MachineryError("self-test failed: %s (a corrupted expectation was not noticed)" % what)
         self.cov.setdefault("selftests", []).append(what)
 
